@@ -68,7 +68,7 @@ MCPInit ==
     \/ \E tb \in Tables, lay \in Layouts :
         \E first \in EntryLists :
             \/ Len(lay) = 1 /\ PStart(tb, << [win |-> lay[1], entries |-> first] >>)
-            \/ Len(lay) = 2 /\ \E second \in (IF Big THEN EntryLists ELSE ShortLists) :
+            \/ Len(lay) = 2 /\ \E second \in ShortLists :
                   PStart(tb, << [win |-> lay[1], entries |-> first], [win |-> lay[2], entries |-> second] >>)
             \/ Len(lay) = 3 /\ \E second \in ShortLists, third \in ShortLists :
                   PStart(tb, << [win |-> lay[1], entries |-> first], [win |-> lay[2], entries |-> second],
